@@ -221,7 +221,7 @@ def run(ctx):
                 continue
             for a in t["args"]:
                 if any(at.kind == "call" and at.key[1] == ex[0] for at in og.of_operand(a)):
-                    consumers.append(u.callee_of(t) or "?")
+                    consumers.append(prog.old_name_of(u.callee_of(t) or "") or u.callee_of(t) or "?")
         rep.check(consumers and all(c.endswith("merge_parallel_deltas") for c in consumers), "C02.R3", "execute_work_queue:only-merged:%s" % u.name,
                   "worker results flow only into merge_parallel_deltas", "worker results are consumed by %s" % consumers, site=u.loc())
 
